@@ -309,6 +309,29 @@ class Prover:
         self.samples.append({'obligation': name, 'verdict': 'unknown:' + self.s.reason_unknown(), 'solver_s': round(dt, 3)})
         return 'unknown'
 
+    def prove_cegar(self, name, pc, claim, confirm, refine, rounds=40, need_reach=True):
+        """prove, and when the solver returns a model: `confirm(model)` replays it on the real code and
+        returns a description if the violation is real.  A model that does not reproduce is used to refine the
+        over-approximated parts of the encoding (`refine(model)` returns new true facts) and the query is
+        repeated.  returns 'proved' | 'trivial' | ('violation', what, model) | 'unknown' | 'spurious' """
+        self.refinements = getattr(self, 'refinements', 0)
+        for k in range(rounds):
+            res = self.prove(name, pc, claim, need_reach=need_reach)
+            if not isinstance(res, tuple):
+                return res
+            m = res[1]
+            what = confirm(m)
+            if what:
+                return ('violation', what, m)
+            self.failed.pop()
+            lemmas = refine(m)
+            if not lemmas:
+                break
+            self.refinements += 1
+            self.add(lemmas)
+        self.unknown.append(name + ' (counterexamples did not reproduce natively after refinement)')
+        return 'spurious'
+
     def reachable(self, pc):
         r, m, dt = self.check(pc)
         return r == z3.sat, m
